@@ -79,6 +79,31 @@ def run(ctx):
     # the router
     from .c12 import filed_when_complete
     filed_when_complete(ctx, 'C14.D5')
+    # ... and "a rule matching it" is decided by router.Rule.match: its
+    # constraint coverage, value domains, hierarchical tests and the
+    # missing-argument rule (C12.D1-D4) are premises of broadcast delivery
+    from . import c12 as _c12
+
+    class _Match:
+        prog = ctx.prog
+        tier = ctx.tier
+        extra = {}
+
+        def ob(self, rule, where, slot, ok, msg, detail=None,
+               nontrivial=True, loc=None):
+            if rule in ('C12.D1', 'C12.D2', 'C12.D3', 'C12.D4') and \
+                    where.startswith('router.'):
+                ctx.ob('C14.D5', where, 'match:%s:%s' % (rule, slot), ok,
+                       '[a broadcast reaches the holders of a MATCHING rule, '
+                       '%s] ' % rule + msg, detail, nontrivial, loc)
+            return ok
+
+        def floor(self, *a):
+            pass
+
+        def advisory(self, *a):
+            pass
+    _c12.run(_Match())
     ctx.floor('C14.D1', 20)
     ctx.floor('C14.D2', 3)
     ctx.floor('C14.D3', 2)
